@@ -91,3 +91,28 @@ def hits(a):
             'raw_u': tolist(h.solver.singular_vectors_left_.reshape(-1)),
             'raw_v': tolist(h.solver.singular_vectors_right_.reshape(-1)),
             'svd_u': tolist(u[:, 0]), 'svd_v': tolist(vt[0]), 'svd_s': tolist(s)}
+
+
+def hits_injected(a):
+    """HITS with a custom SVDSolver (the documented extension point) that hands back the exact principal singular
+    vectors of the matrix (dense SVD) with a chosen global sign and round-off-sized noise on their zero entries."""
+    from sknetwork.linalg import SVDSolver
+    m = mk_matrix(a['m'])
+    dense = np.asarray(m.todense(), dtype=float)
+    u, s, vt = np.linalg.svd(dense)
+    u0 = u[:, 0] * (1.0 if u[:, 0].sum() > 0 else -1.0)
+    v0 = vt[0] * (1.0 if vt[0].sum() > 0 else -1.0)
+    ru = a['sign_u'] * np.where(np.abs(u0) < 1e-12, 0.0, u0) + np.array(a['noise_u'], dtype=float) * (np.abs(u0) < 1e-12)
+    rv = a['sign_v'] * np.where(np.abs(v0) < 1e-12, 0.0, v0) + np.array(a['noise_v'], dtype=float) * (np.abs(v0) < 1e-12)
+
+    class Stub(SVDSolver):
+        def fit(self, matrix, n_components, init_vector=None):
+            self.singular_vectors_left_ = ru.reshape(-1, 1).copy()
+            self.singular_vectors_right_ = rv.reshape(-1, 1).copy()
+            self.singular_values_ = s[:1].copy()
+            return self
+
+    h = HITS(solver=Stub())
+    h.fit(m)
+    return {'row': tolist(h.scores_row_), 'col': tolist(h.scores_col_), 'raw_u': tolist(ru), 'raw_v': tolist(rv),
+            'svd_u': tolist(np.abs(u0)), 'svd_v': tolist(np.abs(v0)), 'svd_s': tolist(s)}
